@@ -461,7 +461,8 @@ def build(model, rename=None, partial=()):
         body = []
         for name, ret in model.get(cls, []):
             a = ann(ret)
-            if a and f"{cls}.{name}" in partial:
+            # the outer generic of a partially quoted annotation is evaluated when the def is executed: it must exist already
+            if a and f"{cls}.{name}" in partial and (ret[0] == "it" or (ret[1] in ORDER and ORDER.index(ret[1]) < ORDER.index(cls))):
                 body.append(f"    def {name}(self) -> {ann_partial(ret)}: ...")
             else:
                 body.append(f"    def {name}(self){' -> ' + repr(a) if a else ''}: ...")
